@@ -9,6 +9,11 @@
 // the next row"; rollback is the real function.  Decided: after any such history, a mask served (possibly) from the cache equals
 // the mask computed after invalidate_bias_cache().
 use super::*;
+// explicit imports: the harness must not depend on which names the real module happens to import
+#[allow(unused_imports)]
+use crate::earley::ParserStats;
+#[allow(unused_imports)]
+use ::toktrie::{SimpleVob, TokenId, INVALID_TOKEN};
 
 #[derive(Debug, Clone, Copy, PartialEq)]
 pub struct MockErr;
